@@ -36,7 +36,7 @@ def harnesses():
                           desc="peek_char from state (buf.len=%d, pos=%d), next read delivers %d "
                                "byte(s) then EOF: result = RFC 3629 decoding of the unread bytes ++ "
                                "chunk; nothing consumed; no panic" % (bl, pos, cl),
-                          bounds="buffer and chunk bytes symbolic", stubs=(S7,),
+                          bounds="the 4 bytes at the read position symbolic", stubs=(S7,),
                           covers_required=False))
     for bl, pos in gen_c18.putbacks():
         quick = (bl, pos) in {(0, 0), (5, 2)}
@@ -60,7 +60,9 @@ ASSUME = [
     "per read)",
     "the reader state (buf, pos) after any history is the pre-state; one further read delivers "
     "0..4 bytes, then end of file",
-    "sizes (buf.len, pos, chunk length) are enumerated constants, every byte is symbolic",
+    "sizes (buf.len, pos, chunk length) are enumerated constants; the up to 4 bytes that can belong "
+    "to the character at the read position (unread bytes first, then chunk bytes) are symbolic, "
+    "already consumed bytes and bytes further on are concrete ASCII",
 ]
 BOUNDS = ("lattice buf.len 0..8 x pos 0..buf.len x chunk 0..4 = 225 states (thorough: all; quick: "
           "11 core states around the compaction branch and EOF + 2 chosen by VERIF_SEED); "
